@@ -227,51 +227,53 @@ Definition build_entry (msgid0 : bytes) (msgids : list bytes) (msgstr : bytes) (
   | _ => Crash CAssertion
   end.
 
+(* [length, offset] = self._read_ints(at=.., n=2); s = view[offset:offset+length].tobytes();
+   try: if view[offset + length] != b'\0': raise SyntaxError(msg)  except IndexError: raise SyntaxError('truncated file') *)
+Definition read_string (be : bool) (f : bytes) (at_ : N) (msg : mo_msg) : outcome bytes mo_err :=
+  do d <- read_int2 be f at_;
+  let '(n, off) := d in
+  let s := slice f off (off + n) in
+  match index f (off + n) with
+  | None => Err (MoSyntax MTruncated)                    (* except IndexError *)
+  | Some t => if negb (N.eqb t 0) then Err (MoSyntax msg) else Ok s
+  end.
+
+(* _parse_entry from  msgstrs = msgstr.split(b'\0')  on; msgids = msgid0 :: rest (one or two elements) *)
+Definition finish_entry (asc : bytes -> bool) (first : bool) (enc : option bytes) (last : option bytes)
+           (msgid0 : bytes) (rest : list bytes) (msgstr : bytes) : outcome (entry * bytes * bytes) mo_err :=
+  let msgstrs := split_all 0 msgstr in
+  match rest, msgstrs with
+  | [], _ :: _ :: _ => Err (MoSyntax MStrNul)            (* len(msgids) == 1 and len(msgstrs) > 1 *)
+  | _, _ =>
+    do encoding <-
+      (if first then Ok (choose_encoding asc enc msgid0 msgstr)
+       else
+         (* elif msgids == self._last_msgid: a list is compared with bytes: never equal, MDuplicate is never raised *)
+         match last with
+         | None => Crash CTypeError                      (* bytes < None *)
+         | Some l =>
+           if bytes_ltb msgid0 l then Err (MoSyntax MNotSorted)
+           else match enc with
+                | Some e => Ok e
+                | None => Crash CAssertion               (* assert encoding is not None *)
+                end
+         end);
+    do e <- build_entry msgid0 (msgid0 :: rest) msgstr msgstrs;
+    Ok (e, encoding, msgid0)
+  end.
+
 (* _parse_entry(i, mo, so); first = (i == 0); enc = self._encoding; last = self._last_msgid.
    Returns the entry, the new self._encoding and the new self._last_msgid. *)
 Definition parse_entry (asc : bytes -> bool) (be : bool) (f : bytes) (first : bool)
            (enc : option bytes) (last : option bytes) (mo so : N)
   : outcome (entry * bytes * bytes) mo_err :=
-  do d <- read_int2 be f mo;
-  let '(klen, koff) := d in
-  let msgid := slice f koff (koff + klen) in
-  match index f (koff + klen) with
-  | None => Err (MoSyntax MTruncated)                    (* except IndexError *)
-  | Some t =>
-    if negb (N.eqb t 0) then Err (MoSyntax MIdNotTerminated) else
-    match splitn 2 0 msgid with
-    | [] => Crash CIndexError                            (* msgids[0] *)
-    | _ :: _ :: _ :: _ => Err (MoSyntax MIdNul)          (* len(msgids) > 2 *)
-    | msgid0 :: rest =>
-      do d2 <- read_int2 be f so;
-      let '(vlen, voff) := d2 in
-      let msgstr := slice f voff (voff + vlen) in
-      match index f (voff + vlen) with
-      | None => Err (MoSyntax MTruncated)
-      | Some t2 =>
-        if negb (N.eqb t2 0) then Err (MoSyntax MStrNotTerminated) else
-        let msgstrs := split_all 0 msgstr in
-        match rest, msgstrs with
-        | [], _ :: _ :: _ => Err (MoSyntax MStrNul)      (* len(msgids) == 1 and len(msgstrs) > 1 *)
-        | _, _ =>
-          do encoding <-
-            (if first then Ok (choose_encoding asc enc msgid0 msgstr)
-             else
-               (* elif msgids == self._last_msgid: a list is compared with bytes: never equal *)
-               match last with
-               | None => Crash CTypeError                (* bytes < None *)
-               | Some l =>
-                 if bytes_ltb msgid0 l then Err (MoSyntax MNotSorted)
-                 else match enc with
-                      | Some e => Ok e
-                      | None => Crash CAssertion         (* assert encoding is not None *)
-                      end
-               end);
-          do e <- build_entry msgid0 (msgid0 :: rest) msgstr msgstrs;
-          Ok (e, encoding, msgid0)
-        end
-      end
-    end
+  do msgid <- read_string be f mo MIdNotTerminated;
+  match splitn 2 0 msgid with
+  | [] => Crash CIndexError                              (* msgids[0] *)
+  | _ :: _ :: _ :: _ => Err (MoSyntax MIdNul)            (* len(msgids) > 2 *)
+  | msgid0 :: rest =>
+    do msgstr <- read_string be f so MStrNotTerminated;
+    finish_entry asc first enc last msgid0 rest msgstr
   end.
 
 (* the for-loop of _parse, from index i on.  fuel: one unit per completed iteration; [length f] suffices
